@@ -557,6 +557,22 @@ class CFG:
                         stack.append(y)
             if not found and target is not entry:
                 out.append((n, label))
+        # None-ness path sensitivity: a branch edge is also a guard when, without it, the target is only
+        # reachable through paths that contradict the tracked None-ness of a flag local
+        # (`x = None ... if x is not None:` - what an inlined helper's result test looks like)
+        if self._null_vars() and target is not entry:
+            key = (target, entry, bool(cut_back))
+            cache = self.__dict__.setdefault("_gps", {})
+            if key not in cache:
+                extra = []
+                have = {(n, l) for n, l in out}
+                for n, m, label in self.branch_edges():
+                    if n not in base or (n, label) in have:
+                        continue
+                    if target not in self.reach_ps(start=entry, cut_edges={(n, m, label)}, cut=cut):
+                        extra.append((n, label))
+                cache[key] = extra
+            out = out + cache[key]
         return out
 
     def guard_atoms(self, target, entry=None, cut_back=False):
@@ -601,7 +617,7 @@ class CFG:
             self._nv = tracked if tracked & tested else set()
         return self._nv
 
-    def reach_ps(self, avoid=(), start=None, labels_skip=()):
+    def reach_ps(self, avoid=(), start=None, labels_skip=(), cut_edges=(), cut=()):
         """Nodes reachable from `start` (default entry) without entering `avoid`, on the
         product of the CFG with the None-ness (N / X / ?) of the locals that are
         assigned None somewhere and tested with `is None`: branches that contradict the
@@ -637,7 +653,7 @@ class CFG:
                                 lst[i] = "?"
                 st2 = tuple(lst)
             for m, label in self.succ[n]:
-                if label in labels_skip or m in avoid:
+                if label in labels_skip or m in avoid or (n, m, label) in cut_edges or (n, m) in cut:
                     continue
                 st3 = st2
                 if vars_ and n.kind == "test" and label in ("T", "F"):
